@@ -34,7 +34,7 @@ import (
 	. "vh/vhlib"
 )
 
-var gens = map[string]GenFn{"ProxyTokens": genProxyTokens}
+var gens = map[string]GenFn{"ProxyTokens": genProxyTokens, "ProxyBuiltinTokens": genProxyBuiltinTokens}
 
 func callsDecrease(n ast.Node) bool {
 	found := false
@@ -489,5 +489,155 @@ func genProxyTokens(repo string) (string, error) {
 	fmt.Fprintf(&b, "Definition proxy_default_global_ms : Z := %d.\n", int64(types.GlobalTimeout/time.Millisecond))
 	b.WriteString("Definition proxy_src : srcp :=\n  {| loop_bound := proxy_loop_bound; min_budget := proxy_min_budget; reset_guarded := proxy_reset_guarded;\n     direct_clears_again := proxy_direct_clears_again;\n     direct_cancels_retry := proxy_direct_cancels_retry; direct_resets_upstream := proxy_direct_resets_upstream;\n     put_resets_cursor := proxy_put_resets_cursor;\n     retry_checks_direct := proxy_retry_checks_direct; retry_refinalizes := proxy_retry_refinalizes;\n     timers_reset_stream := proxy_timers_reset_stream; hijack_clears_body := proxy_hijack_clears_body;\n     retry_clears_reuse := proxy_retry_clears_reuse; setupretry_clears_reuse := proxy_setupretry_clears_reuse;\n     global_lost_cas_stops := proxy_global_lost_cas_stops; append_error_continues := proxy_append_error_continues;\n     reason_code := proxy_reason_code |}.\n")
 	fmt.Fprintf(&b, "Definition ProxyTokens_translator_ok := %v.\n", ok)
+	return b.String(), nil
+}
+
+// ProxyBuiltinTokens: how the built-in deny filters get their configuration (Model/ProxyBuiltin.v [bsrc]).
+//   *_fresh    : the factory's CreateFilterChain builds the filter only through NewFilter(ctx, f.Config), and NewFilter converts
+//                the configuration anew (the filter's config field / the constructor's config argument is a make*Config(..) call)
+//   *_replaces : ReadPerRouteConfig assigns f.config (the pointer) and never a field of it
+//   ip_access  : OnReceive assigns nothing reachable from the filter object (the shared lists are only read)
+func genProxyBuiltinTokens(repo string) (string, error) {
+	var b strings.Builder
+	b.WriteString("From MV Require Import Model.ProxyBuiltin.\n")
+	ok := true
+	shape := func(dir string) (fresh, replaces bool) {
+		_, ff, err := ParseGoFile(repo, "pkg/filter/stream/"+dir+"/factory.go")
+		if err != nil {
+			ok = false
+			return
+		}
+		_, fl, err := ParseGoFile(repo, "pkg/filter/stream/"+dir+"/"+dir+".go")
+		if err != nil {
+			ok = false
+			return
+		}
+		// factory: every plain-function call in CreateFilterChain that yields the filter is NewFilter(_, f.Config)
+		cf := FindFunc(ff, "FilterConfigFactory", "CreateFilterChain")
+		nf := FindFunc(fl, "", "NewFilter")
+		if cf == nil || nf == nil {
+			ok = false
+			return
+		}
+		fresh = true
+		seenNew := 0
+		ast.Inspect(cf.Body, func(n ast.Node) bool {
+			ce, isCall := n.(*ast.CallExpr)
+			if !isCall {
+				return true
+			}
+			if id, isID := ce.Fun.(*ast.Ident); isID {
+				if id.Name == "NewFilter" && len(ce.Args) == 2 {
+					if se, isSel := ce.Args[1].(*ast.SelectorExpr); isSel && se.Sel.Name == "Config" {
+						seenNew++
+						return true
+					}
+				}
+				fresh = false // some other constructor / helper is used
+			}
+			return true
+		})
+		if seenNew != 1 {
+			fresh = false
+		}
+		// NewFilter converts anew
+		isMake := func(e ast.Expr) bool {
+			ce, isCall := e.(*ast.CallExpr)
+			if !isCall {
+				return false
+			}
+			id, isID := ce.Fun.(*ast.Ident)
+			return isID && strings.HasPrefix(id.Name, "make") && len(ce.Args) == 1
+		}
+		converts := false
+		ast.Inspect(nf.Body, func(n ast.Node) bool {
+			switch x := n.(type) {
+			case *ast.KeyValueExpr:
+				if id, isID := x.Key.(*ast.Ident); isID && id.Name == "config" && isMake(x.Value) {
+					converts = true
+				}
+			case *ast.ReturnStmt:
+				if len(x.Results) == 1 {
+					if ce, isCall := x.Results[0].(*ast.CallExpr); isCall && len(ce.Args) > 0 && isMake(ce.Args[len(ce.Args)-1]) {
+						converts = true
+					}
+				}
+			}
+			return true
+		})
+		if !converts {
+			fresh = false
+		}
+		// ReadPerRouteConfig: assigns the pointer, never a field of the object
+		var rp *ast.FuncDecl
+		for _, d := range fl.Decls {
+			if fd, isFn := d.(*ast.FuncDecl); isFn && fd.Name.Name == "ReadPerRouteConfig" && fd.Recv != nil {
+				rp = fd
+			}
+		}
+		if rp == nil {
+			ok = false
+			return
+		}
+		ptr, field := 0, 0
+		ast.Inspect(rp.Body, func(n ast.Node) bool {
+			as, isAs := n.(*ast.AssignStmt)
+			if !isAs {
+				return true
+			}
+			for _, l := range as.Lhs {
+				se, isSel := l.(*ast.SelectorExpr)
+				if !isSel {
+					continue
+				}
+				if inner, isInner := se.X.(*ast.SelectorExpr); isInner && inner.Sel.Name == "config" {
+					field++
+				} else if _, isID := se.X.(*ast.Ident); isID && se.Sel.Name == "config" {
+					ptr++
+				}
+			}
+			return true
+		})
+		replaces = ptr == 1 && field == 0
+		if ptr+field == 0 {
+			ok = false
+		}
+		return
+	}
+	plf, plr := shape("payloadlimit")
+	fif, fir := shape("faultinject")
+	// ip_access: OnReceive writes nothing into the filter / its shared lists
+	if _, fa, err := ParseGoFile(repo, "pkg/filter/stream/ipaccess/stream_filter.go"); err == nil {
+		if or := FindFunc(fa, "IPAccessFilter", "OnReceive"); or != nil {
+			ast.Inspect(or.Body, func(n ast.Node) bool {
+				if as, isAs := n.(*ast.AssignStmt); isAs {
+					for _, l := range as.Lhs {
+						root := l
+						for {
+							switch x := root.(type) {
+							case *ast.SelectorExpr:
+								root = x.X
+								continue
+							case *ast.IndexExpr:
+								root = x.X
+								continue
+							}
+							break
+						}
+						if id, isID := root.(*ast.Ident); isID && id.Name == "f" {
+							ok = false
+						}
+					}
+				}
+				return true
+			})
+		} else {
+			ok = false
+		}
+	} else {
+		ok = false
+	}
+	fmt.Fprintf(&b, "Definition proxy_bsrc : bsrc := {| pl_fresh := %v; pl_replaces := %v; fi_fresh := %v; fi_replaces := %v |}.\n", plf, plr, fif, fir)
+	fmt.Fprintf(&b, "Definition ProxyBuiltinTokens_translator_ok := %v.\n", ok)
 	return b.String(), nil
 }
